@@ -385,6 +385,13 @@ def run(F, rep):
         raise AnalysisBroken('C09.V1: only %d iterators into child containers found (25+ confirmed)' % n_v)
 
 
+    # ------------------------------------------------------------------ O1: owners of entities that may have none
+    import nullres
+    n_o = nullres.run(F, rep, 'C09.O1', kinds=('owningComponent', 'owningModel', 'parent'))
+    if n_o < 40:
+        raise AnalysisBroken('C09.O1: only %d owner lookups with a dereference found (60+ confirmed)' % n_o)
+
+
 def strip_cast(n):
     while n is not None and n.get('k') in ('Cast', 'Construct') and len(n.get('c', [])) == 1:
         n = n['c'][0]
